@@ -105,6 +105,8 @@ def leaf_expectation(case, ctx, ln):
 def run_leaf_job(job):
     r = core.Result()
     for case in leafspell.cases_of_job(job):
+        if case[0] not in LEAF_KIND:
+            continue            # families that are whole small documents (list markers with tabs, lazy lines), not one leaf block
         r.states += 1
         for ctx in leafspell.CONTEXTS:
             x = leafspell.in_context(case, ctx)
